@@ -1,7 +1,7 @@
 (* C14 — the debugger command language is total, unambiguous and transport-independent. *)
 From Coq Require Import List NArith ZArith Bool String.
 From Lace Require Import CmdSpec Cmd CmdProofs.
-From Lace Require Dbg DbgBad DebugText DebugTextProofs Utf8 Utf8Lines.
+From Lace Require Dbg DbgBad DebugText DebugTextProofs Utf8 Utf8Lines DbgStream DbgStreamLines.
 Import ListNotations.
 Open Scope N_scope.
 
@@ -271,6 +271,13 @@ Theorem C14_utf8_lines : forall bs,
      snd (stdin_read bs)).
 Proof. exact Utf8Lines.read_line_eq. Qed.
 Print Assumptions C14_utf8_lines.
+
+(** ... and so the reader of the one-stream debugger model (DbgStream.fetch, what the DBGS correspondence runs) IS the reader
+    in the code's order: decode a character, test it, push it; parse the line; skip blank lines. *)
+Theorem C14_stream_reader_order : forall fuel inp,
+  DbgStream.fetch fuel inp = DbgStreamLines.fetch_chars fuel inp.
+Proof. exact DbgStreamLines.fetch_in_code_order. Qed.
+Print Assumptions C14_stream_reader_order.
 
 Example C14_utf8_lossy_nonvacuous :
   Utf8.decode_lossy [99; 97; 102; 233; 10; 113] = [99; 97; 102; 65533; 10; 113] /\
